@@ -54,6 +54,8 @@ var pureExternalPrefixes = []string{
 	"unicode/utf8.", "slices.", "maps.", "golang.org/x/exp/slices.", "golang.org/x/exp/maps.",
 	"github.com/cosmos/cosmos-sdk/types.AccAddressFromHexUnsafe", "(*github.com/cosmos/cosmos-sdk/crypto/keys/secp256k1.PubKey).",
 	"(github.com/cometbft/cometbft/libs/bytes.HexBytes).", "(github.com/cometbft/cometbft/crypto.Address).",
+	"github.com/btcsuite/btcd/btcec/v2/ecdsa.RecoverCompact", "(*github.com/btcsuite/btcd/btcec/v2.PublicKey).",
+	"github.com/decred/dcrd/dcrec/secp256k1/v4/ecdsa.RecoverCompact", "(*github.com/decred/dcrd/dcrec/secp256k1/v4.PublicKey).", "(github.com/decred/dcrd/dcrec/secp256k1/v4.PublicKey).",
 }
 
 // always-non-nil error results
